@@ -53,6 +53,8 @@ def legacy_specs(P: str = "G", runtime_only: bool = False) -> list[CS]:
         CS(f"{P}FixedLbl", (f"{P}Lbl",), [FS("label", "prop", "str", "str", init=False, default='"fixed"')]),
         # a field whose annotation admits a node or a scalar and that holds the scalar (a property by its value)
         CS(f"{P}UnionLbl", (N,), [FS("label", "prop", f"{P}Leaf | str", "str", default='""'), FS("kid", "child", f"{N} | None", "opt", (N,), default="None")]),
+        # a sequence child field declared before single child fields
+        CS(f"{P}SeqFirst", (N,), [FS("items", "child", f"tuple[{N}, ...]", "tuple", (N,), default="()"), FS("alpha", "child", f"{N} | None", "opt", (N,), default="None"), FS("omega", "child", f"{N} | None", "opt", (N,), default="None")]),
         # keyword-only child fields (field(kw_only=True)): children like any other
         CS(f"{P}Kw", (N,), [FS("first", "child", f"{N} | None", "opt", (N,), default="None"), FS("body", "child", f"tuple[{N}, ...]", "tuple", (N,), kw_only=True, default="()"), FS("last", "child", f"{N} | None", "opt", (N,), kw_only=True, default="None"), FS("v", "prop", "int", "int", kw_only=True, default="0")]),
         CS(f"{P}Wrap", (f"{P}Leaf",), [FS("inner", "child", f"{N} | None", "opt", (N,), default="None")]),
@@ -67,7 +69,9 @@ def legacy_specs(P: str = "G", runtime_only: bool = False) -> list[CS]:
         ),
     ] + (
         # a field that is a child field only by what it holds at run time (the annotation is not a child annotation)
-        [CS(f"{P}Seq", (N,), [FS("elems", "child", f"Sequence[{N}]", "tuple", (N,), default="()"), FS("n", "prop", "int", "int", default="0")])]
+        [CS(f"{P}Seq", (N,), [FS("elems", "child", f"Sequence[{N}]", "tuple", (N,), default="()"), FS("n", "prop", "int", "int", default="0")]),
+         # ... declared before a statically typed child field: children come in declaration order all the same
+         CS(f"{P}RtFirst", (N,), [FS("target", "child", "Any", "opt", (N,), default="None"), FS("value", "child", f"{N} | None", "opt", (N,), default="None"), FS("rest", "child", f"tuple[{N}, ...]", "tuple", (N,), default="()")])]
         if runtime_only
         else []
     )
